@@ -11,7 +11,7 @@ enum { K_SEQ, K_CALLS, K_TOKENS, K_FAULTS, K_ERRSEQ, K_DEATH, K_NUM };
 static const char *KN[] = {"sequences", "calls", "tokens_checked", "faults", "unterminated_sequences", "worker_deaths"};
 static unsigned long long K[K_NUM];
 
-typedef struct { int wide; size_t len; unsigned long code; int dv; int delimv; int bos; int place; } tscn;
+typedef struct { int wide; size_t len; unsigned long code; int dv; int delimv; int bos; int place; int rog; } tscn;   /* rog: the page behind the unterminated buffer is readable, not writable: 1 filled with the first delimiter, 2 with a non-delimiter, 3 with zeros */
 static const uint32_t AL[4] = {',', ';', 'a', 'b'};
 static char g_wit[900]; static int g_samples;
 
@@ -72,6 +72,7 @@ static void run_seq(const tscn *s, long idx) {
     char obs[260];
     size_t prev_dmax = dmax0;
     int delim_too_long = s->delimv == 4;
+    if (s->rog) guard_fill(0, s->rog == 1 ? (n1 ? d1[0] : ',') : s->rog == 2 ? 'q' : 0, ew);
     for (int call = 0; call < 32; call++) {
         const uint32_t *dd = (call & 1) ? d2 : d1; size_t dn = (call & 1) ? n2 : n1; void *dl = (call & 1) ? dl2 : dl1;
         void *tok = (void *)-1; int e;
@@ -81,6 +82,16 @@ static void run_seq(const tscn *s, long idx) {
         else   FENCED(tok = _strtok_s_chk(call == 0 ? (char *)buf : NULL, dmaxp, dl, (char **)ptr, call == 0 ? bos : 0));
         g_shm->in_call = 0; e = errno;
         K[K_CALLS]++;
+        if (s->rog) {   /* only one question here: is anything stored behind dest+dmax (what is read there is the pinned over-read) */
+            if (g_fence.faulted && g_fence.is_write) {
+                K[K_FAULTS]++;
+                snprintf(obs, sizeof obs, "WRITE fault at offset %ld from dest (dmax %zu); the unterminated buffer is followed by readable %s", (long)(g_fence.addr - (uintptr_t)buf), dmax0, s->rog == 1 ? "delimiter characters" : s->rog == 2 ? "non-delimiter characters" : "zeros");
+                viol(s, idx, "W-fault-past-dest+dmax(readable-neighbourhood)", call, obs);
+                if (want("C01")) { char key[200], what[400]; snprintf(key, sizeof key, "%s|tok-W-fault|past-dest+dmax|readable-%s", w ? "wcstok_s" : "strtok_s", s->rog == 1 ? "delimiters" : s->rog == 2 ? "non-delimiters" : "zeros"); snprintf(what, sizeof what, "%s writes outside dest[0..dmax): %s", w ? "wcstok_s" : "strtok_s", obs); wit(s, idx, obs); report("C01", key, what, g_wit); }
+            }
+            if (g_fence.faulted || tok == NULL || call == 31) { guard_readable(0, 0); return; }
+            continue;
+        }
         if (g_fence.faulted) {
             K[K_FAULTS]++;
             const char *wh = (g_fence.addr >= (uintptr_t)slot_end(0) + 256 && g_fence.addr < (uintptr_t)slot_end(0) + PAGE) ? "continuation-pointer-used-but-never-stored" :
@@ -151,6 +162,7 @@ static void gen(void) {
             long my = idx++; if (g_only_idx >= 0 ? my != g_only_idx : (my % g_nw != g_wid || my < g_skip_below)) continue;
             memset(&s, 0, sizeof s); s.wide = w; s.len = len; s.code = code; s.dv = dv; s.delimv = delimv; s.bos = (int)((code + dv) & 1); s.place = (int)((code >> 1) & 1);
             g_shm->cur = my; run_seq(&s, my);
+            if (dv >= 3 && !s.place && len) for (int r = 1; r <= 3; r++) { s.rog = r; run_seq(&s, my); } s.rog = 0;
         } }
 }
 static void body(void *a, long lo, long hi) { (void)a; (void)hi; g_skip_below = lo; gen(); for (int i = 0; i < K_NUM; i++) __sync_fetch_and_add(&CTR(i), K[i]); __sync_fetch_and_add(&CTR(60), g_fp_checks); distinct_emit(); }
